@@ -25,11 +25,13 @@ class Ctx:
         self._must = {}
         self._locked = None
         self.counters = {"functions": set(), "call_sites": 0, "cfg_nodes": 0, "paths": 0}
+        self.named = set()  # functions a rule asked for by name (its anchors), as opposed to functions reached by a whole-program sweep
 
     # ------------------------------------------------------------ anchors
     def fn(self, spec, rule="anchor"):
         f = self.ix.find_func(spec, rule)
         self.counters["functions"].add(f.qual)
+        self.named.add(f.qual)
         return f
 
     def cls(self, spec, rule="anchor"):
